@@ -52,10 +52,15 @@ theorem tmRemoveTimeout_stepsS {l l' : Led} {h : Nat} {id : TId} (e : tmRemoveTi
 theorem tmBegin_stepsS (l : Led) (cur : Nat) (id : TxId) (t : Nat) (f : Bool) : StepsS l (tmBegin l cur id t f).1 := by
   unfold tmBegin; stepsS_tac
 
-theorem tmBeginInter_stepsS {l : Led} {cur : Nat} {id : TxId} {t : Nat} {f : Bool} {r : Led × StatusChange}
-    (e : tmBeginInter l cur id t f = .ok r) : StepsS l r.1 := by
+theorem tmBeginInter_stepsS {l : Led} {cur : Nat} {id : TxId} {t : Nat} {x : Ext} {f : Bool} {r : Led × StatusChange}
+    (e : tmBeginInter l cur id t x f = .ok r) : StepsS l r.1 := by
   unfold tmBeginInter at e
   split at e
+  · split at e
+    · cases e
+    · split at e
+      · cases e
+      · cases e; stepsS_tac
   · cases e
   · cases e; stepsS_tac
 
@@ -193,8 +198,10 @@ theorem handleIBTP_stepsS {env : Env} {l : Led} {i : Ibtp} {r : Led × String}
         split at hr
         · exact beginTransaction_stepsS hr
         · split at hr
+          · split at hr
+            · cases hr
+            · rename_i x hx; cases hr; exact tmReport_stepsS hx
           · cases hr
-          · rename_i x hx; cases hr; exact tmReport_stepsS hx
       have h2 := notifySrcDst_stepsS env l1 ck.src ck.dst c ck.isBatch
       have h3 := processIBTP_stepsS (notifySrcDst env l1 ck.src ck.dst c ck.isBatch) i ck c
       have h123 := StepsS.trans (StepsS.trans h1 h2) h3
